@@ -324,6 +324,22 @@ def r05_4(ctx: Ctx) -> None:
            "protoclusters promoted into an existing candidate also receive a SINGLE", form="")
 
 
+def r05_6(ctx: Ctx) -> None:
+    from .bisect_lint import scan_bounds
+    from ..index import _walk_functions
+    count = 0
+    for qual, func in _walk_functions(ctx.repo.mod(FORM).tree, ""):
+        for node, role, kind, ok in scan_bounds(func):
+            count += 1
+            ctx.ob("R05.6", FORM, node, qual, f"{role} bound of {txt(node)[:50]}", ok,
+                   "a forward scan over a sorted list starts at the lower bisection point (bisect_left, minus a margin) so that "
+                   "elements tying with the searched key are not skipped",
+                   detail="" if ok else f"the {role} bound derives from bisect_{kind}: elements equal to the key are skipped",
+                   form=f"{txt(node)}  [{role} bound from bisect_{kind}]")
+    if count < 3:
+        raise AnalysisError(f"formation.py: expected at least 3 bisection-bounded scans, found {count}")
+
+
 def run(ctx: Ctx) -> None:
     ctx.rule("R05.1", "store and lookup keys of the de-duplication table agree", floor=3)
     ctx.rule("R05.2", "each formation pass compares what its kind documents", floor=20)
@@ -333,6 +349,8 @@ def run(ctx: Ctx) -> None:
     r05_2(ctx)
     r05_4(ctx)
     r05_5(ctx)
+    ctx.rule("R05.6", "bisection-derived scan bounds do not skip ties", floor=3)
+    r05_6(ctx)
     from . import family_e
     family_e.run_for(ctx, "R05.3", [FORM], floor=5,
                      statement="no set of protoclusters reaches an ordered result without a total order")
